@@ -272,18 +272,23 @@ def _builder_field_flow(R, c):
         R.check("C05-R3", "new-keeps-params", ok, "RequestBuilder.params <- clone of the params argument", "RequestBuilder::new does not store its params argument: " + fmt_t(ret)[:160])
     bi = lib.one(R, "C05-R3", c, "RequestBuilder::build_intermediate", item="build_intermediate", impl_self=RB)
     if bi:
+        from .. import flow as _flow
+        W_ = _flow.World([c])
         found = {}
-        for b in sorted(bi.reach0):
-            for s_ in bi.blocks[b]["s"]:
-                if s_["k"] == "assign" and s_["r"]["k"] == "agg" and s_["r"].get("d") == "protocol::request::Request":
-                    t = bi._trace_rv(s_["r"], None, 0)
-                    names = t[4]
-                    found["install_source"] = lib.apath(t[3][names.index("install_source")])
+        bodies_ = lib.with_private_callees(W_, bi)   # build_intermediate and the private helpers it was split into
+        for hv_ in bodies_:
+            for b in sorted(hv_.reach0):
+                for s_ in hv_.blocks[b]["s"]:
+                    if s_["k"] == "assign" and s_["r"]["k"] == "agg" and s_["r"].get("d") == "protocol::request::Request":
+                        t = hv_._trace_rv(s_["r"], None, 0)
+                        names = t[4]
+                        found["install_source"] = lib.apath(t[3][names.index("install_source")])
         R.check("C05-R3", "installsource", found.get("install_source") == "param1.params.source", "Request.install_source <- self.params.source: %s" % found, "installsource does not come from the builder's params: %s" % found)
         # interactivity header: match on self.params.source with fg under OnDemand
         ok = False
         det = ""
-        for b in sorted(bi.reach0):
+        for bi in bodies_:
+          for b in sorted(bi.reach0):
             si = guards.switch_info(bi, b)
             if si and si.kind == "discr" and si.ty.get("d") == "protocol::request::InstallSource" and "params.source" in lib.apath(si.term):
                 vals = {}
